@@ -212,3 +212,42 @@ def replay_query(kind, start_ref, hist, qname):
             print(diff(before, after))
             return before == after
     return True
+
+
+# ------------------------------------------------------------------------------------------------ reachable states
+def reachable_states(kind, seed, n_walks, walk_len, every=3):
+    """(start_ref, history) pairs: states reached from the start states by random well-formed public editing requests;
+    used by the derivation properties (C06, C08) so that they are evaluated on edited graphs, not only on built ones"""
+    rng = random.Random(seed + 77)
+    menu = op_instances(kind, (0, 1, 2, 3), random.Random(seed))
+    # stereo-change requests are rare in the menu: give them weight
+    heavy = [op for op in menu if "stereo" in op[0]]
+    for sname, sref in start_states(kind):
+        for w in range(n_walks):
+            r, hist = sref.copy(), ()
+            for i in range(walk_len):
+                if heavy and rng.random() < 0.6:
+                    # an applicable stereo request; deletions (applicable only where something is stored) get half of the weight
+                    ok_ops = [op for op in heavy if apply_ref(r.copy(), op) == "ok"]
+                    dels = [op for op in ok_ops if op[0].startswith("delete")]
+                    pool = dels if dels and rng.random() < 0.5 else ok_ops
+                    if not pool:
+                        continue
+                    op = rng.choice(pool)
+                else:
+                    op = rng.choice(menu)
+                r2 = r.copy()
+                if apply_ref(r2, op) != "ok":
+                    continue
+                r, hist = r2, hist + (op,)
+                if len(hist) % every == 0:
+                    yield sref, hist
+            if hist:
+                yield sref, hist
+
+
+def rebuild(start_ref, hist):
+    g = build_real(start_ref)
+    for h in hist:
+        apply_real(g, h)
+    return g
